@@ -215,6 +215,13 @@ class SymCtx:
     def fail(self, label, detail=None):
         self.eng.require(False, label)
 
+    def report(self, label, detail=None):
+        """record a violation and keep going on this path (used for already-known clauses so that
+        they do not mask the checks that follow)"""
+        e = self.eng
+        e.stats.obligations += 1
+        e._violation(label, e.get_model())
+
     def observe(self, key, value):
         self.obs.append((key, value))
 
@@ -303,6 +310,9 @@ class RealCtx:
         self.failures.append((label, detail))
         raise RealViolation(label, detail)
 
+    def report(self, label, detail=None):
+        self.failures.append((label, detail))
+
     def observe(self, key, value):
         self.obs.append((key, value))
 
@@ -349,7 +359,7 @@ def run_real(body, lib, shape, inputs):
     try:
         body(ctx, shape)
     except RealViolation:
-        pass
+        return ctx.failures, ctx.obs, "stopped-at-violation"
     except core.PathAbort:
         return ctx.failures, ctx.obs, "assumption-failed"
     return ctx.failures, ctx.obs, None
